@@ -381,12 +381,14 @@ Section Proofs.
   Definition known_action (act : string) : bool :=
     existsb (String.eqb act) ["start"; "suspend"; "stop"; "retry"; "mark-success"; "mark-failed"; "save"; "rename"].
 
-  (* the general statement: whatever the world, the DAG id and the body - if the answer is not 200 the world is
-     unchanged and nothing was started or stopped (a retry whose process fails has been started: 500).
-     For action rename: names on which the path rules agree. *)
+  Hypothesis dir_abs : is_abs dir = true.
+
+  (* the general statement (full since fe0ec16): whatever the world, the DAG id and the body - if the answer is
+     not 200 the world is unchanged and nothing was started or stopped (a retry whose process fails has been
+     started: 500).  Standing assumption for rename: both ids are single path elements. *)
   Theorem refused_nothing : forall a id b c a' ev,
     post a id b = (c, a', ev) -> c <> 200 ->
-    (b_action b = Some "rename" -> name_okb dir id = true /\ name_okb dir (b_value b) = true) ->
+    (b_action b = Some "rename" -> has_slash id = false /\ has_slash (b_value b) = false) ->
     a' = a /\ (ev = [] \/ (b_action b = Some "retry" /\ b_reqid b <> "" /\ retry_ok = false)).
   Proof.
     intros a id b c a' ev HP HC HR. unfold Model.post in HP.
@@ -419,7 +421,7 @@ Section Proofs.
     destruct (String.eqb act "rename") eqn:A7.
     { apply String.eqb_eq in A7. subst act. destruct (HR eq_refl) as [O1 O2].
       destruct (String.eqb (b_value b) ""); [injection HP as <- <- <-; auto|].
-      pose proof (rename_failed_unchanged valid meta_ok dir (a_w a) id (b_value b) O1 O2) as RF.
+      pose proof (rename_failed_unchanged valid meta_ok dir dir_abs (a_w a) id (b_value b) O1 O2) as RF.
       unfold Model.step_res, Model.step_w in RF.
       destruct (step valid meta_ok dir (a_w a) (ORename id (b_value b))) as [[w' r] o]. simpl in RF.
       injection HP as <- <- <-. destruct r; simpl in HC; try congruence;
